@@ -425,10 +425,13 @@ class History:
         tok = self.tok
         data = gen.gen_payload_arg(rng, True)
         timeout = rng.choice([1, 5, 60, 0.5, 3600])
+        # 'prompt_ack': the acknowledgement is handled before the send of
+        # the event has returned to call() (a prompt client, a slow send, a
+        # transport that answers from the send path)
         script = rng.choice(['ack', 'ack', 'ack', 'timeout',
                              'disconnect_timeout', 'foreign_ack_timeout',
                              'wrongid_then_ack', 'ack_after_timeout',
-                             'lose_timeout'])
+                             'lose_timeout', 'prompt_ack', 'prompt_ack'])
         args = gen.gen_args(rng, True, 3, maxn=3)
         op = ['call', tok, sid, ns, data, timeout, script, args]
         self.ops.append(op)
@@ -470,8 +473,35 @@ class History:
             if script == 'ack_after_timeout':
                 return []
             return []
-        expect_result = script in ('ack', 'wrongid_then_ack')
+        expect_result = script in ('ack', 'wrongid_then_ack', 'prompt_ack')
         kw = dict(to=sid, namespace=ns, timeout=timeout)
+        undo_send = []
+        if script == 'prompt_ack':
+            eio = r.d.eio
+            for meth in ('send', 'send_packet'):
+                orig = getattr(eio, meth)
+                if r.d.is_async:
+                    async def wrapped(*a, _o=orig, **k):
+                        ret = await _o(*a, **k)
+                        if not state.get('prompt'):
+                            observe()
+                            if state['id'] is not None:
+                                state['prompt'] = True
+                                await self.feed_async(
+                                    (t, R.ACK, ns, state['id'], args))
+                        return ret
+                else:
+                    def wrapped(*a, _o=orig, **k):
+                        ret = _o(*a, **k)
+                        if not state.get('prompt'):
+                            observe()
+                            if state['id'] is not None:
+                                state['prompt'] = True
+                                self.feed_sync(
+                                    (t, R.ACK, ns, state['id'], args))
+                        return ret
+                setattr(eio, meth, wrapped)
+                undo_send.append((eio, meth))
         if r.d.is_async:
             loop = r.d.loop
 
@@ -544,6 +574,8 @@ class History:
                                  '[%r]' % (state['waits'], timeout), res)
             if status == 'exc' and type(val).__name__ == 'TimeoutError':
                 ctx.count('call_timeouts_observed')
+        for obj, meth in undo_send:
+            obj.__dict__.pop(meth, None)
         r._collect(res)
         # bookkeeping of model: disconnections performed by the script
         if script == 'disconnect_timeout':
